@@ -13,6 +13,9 @@ results).  Decides:
               unifies both source and target with unit
   C04.lock    no call that can reach Context::lock while a MutexGuard returned by it is live (std Mutex is not
               re-entrant: self-deadlock)
+  C04.errors  in the Arrow constructors a unification or binding that can fail returns its error: unwrap/expect on its result
+              is accepted only when one operand is a fresh variable that no earlier constraint of the function mentions
+              (then it cannot fail)
   C04.rec     recursion inside type inference is reviewed (bind <-> unify is input-depth: known finding)
 """
 import itertools
@@ -196,6 +199,52 @@ def run(ctx, rep):
     rep.rule("C04.lock", "Context::lock is never re-entered while its guard is live")
     rep.rule("C04.rec", "recursion inside type inference is reviewed")
 
+    # ------------------------------------------------------------------ errors
+    rep.rule("C04.errors", "a fallible unification/binding in an Arrow constructor returns its error instead of panicking")
+    n_con = 0
+    for f in sorted(F.fns.values(), key=lambda x: x.path):
+        if not f.path.startswith("simplicity::types::arrow::"):
+            continue
+        f = F.inlined(f, ARROW_VOCAB)
+        T = Terms(f)
+        T.site_names = {"free"}
+        cons = [cs for cs in f.calls() if cs.name in ("unify", "bind_product", "bind_sum")]
+        n_con += len(cons)
+        for cs in f.calls():
+            if cs.name not in ("unwrap", "expect") or not cs.args:
+                continue
+            t = T.operand(cs.args[0])
+            inner = [c for c in calls_in(t) if c[2] in ("unify", "bind_product", "bind_sum")]
+            if not inner:
+                continue
+            # the constraint whose result is unwrapped
+            target = [c2 for c2 in cons if not c2.dest[1] and any(cc[2] == c2.name for cc in inner) and f.dominates(c2.bb, cs.bb)]
+            target = target[-1] if target else None
+            key = "%s:%s" % (f.name, cs.name)
+            if target is None:
+                rep.violation("C04.errors", key, "an unwrapped constraint result could not be traced in %s" % f.path, cs.where())
+                continue
+            fresh = set()
+            for a in target.args:
+                ta = T.operand(a)
+                top = ta
+                while isinstance(top, tuple) and top and top[0] in ("ref", "un", "deref"):
+                    top = top[-1]
+                if isinstance(top, tuple) and top and top[0] == "call" and top[2] == "free" and len(top) > 6:
+                    fresh.add(top[6][1])
+            earlier = [c2 for c2 in cons if c2 is not target and target.bb in f.reachable(c2.bb) and c2.bb != target.bb]
+            used = set()
+            for c2 in earlier:
+                for a in c2.args:
+                    for cc in calls_in(T.operand(a)):
+                        if cc[2] == "free" and len(cc) > 6:
+                            used.add(cc[6][1])
+            if fresh - used:
+                rep.ok("C04.errors", key + ": operand is a fresh, still unconstrained variable", None)
+            else:
+                rep.violation("C04.errors", key, "%s: the result of %s is unwrapped although none of its operands is a fresh variable untouched by earlier "
+                              "constraints: an ill-typed program panics instead of getting a type error" % (f.path, target.name), cs.where())
+    rep.count("arrow_constraints", n_con)
     # ------------------------------------------------------------------ rules
     _FACTS[0] = F
     arrow_methods = {}
